@@ -51,7 +51,7 @@ fn signed_tree(ch: &mut Chooser, n: usize, lits: &[&str], top: bool) -> Expr {
     };
     let _ = top;
     let already_signed = matches!(&inner, Expr::Lit(s, _) if s.starts_with('-'));
-    match sign {
+    let first = match sign {
         0 => inner,
         1 => {
             if already_signed {
@@ -63,7 +63,8 @@ fn signed_tree(ch: &mut Chooser, n: usize, lits: &[&str], top: bool) -> Expr {
         }
         2 => Expr::Sign(Sign::NegDetached, Box::new(inner)),
         _ => Expr::Sign(Sign::PosDetached, Box::new(inner)),
-    }
+    };
+    first
 }
 
 impl Prop for C02 {
@@ -131,6 +132,34 @@ impl Prop for C02 {
                 let style = *ch.pick(&sstyles);
                 let e = signed_tree(ch, 3, &["7", "2", "-3"], true);
                 Some(Case { expr: e, style, assign: None })
+            },
+        ));
+        f.push(Family::new(
+            "sign-chains",
+            Mode::Full,
+            "every chain of 1..=4 detached sign prefixes (+ or -) in front of an operand (7, -3, a parenthesised sum), at the start of the line, after each binary operator, inside parentheses and as an assignment's right-hand side",
+            move |ch| {
+                let n = 1 + ch.choose(4);
+                let mut e = match ch.choose(3) {
+                    0 => Expr::Lit("7".into(), None),
+                    1 => Expr::Lit("-3".into(), None),
+                    _ => Expr::Bin('+', Box::new(Expr::Lit("7".into(), None)), Box::new(Expr::Lit("2".into(), None))),
+                };
+                for _ in 0..n {
+                    e = Expr::Sign(if ch.flag() { Sign::NegDetached } else { Sign::PosDetached }, Box::new(e));
+                }
+                let ctx = ch.choose(7);
+                let two = || Box::new(Expr::Lit("2".into(), None));
+                let (e, assign) = match ctx {
+                    0 => (e, None),
+                    1 => (Expr::Bin('*', two(), Box::new(e)), None),
+                    2 => (Expr::Bin('-', two(), Box::new(e)), None),
+                    3 => (Expr::Bin('/', two(), Box::new(e)), None),
+                    4 => (Expr::Bin('+', two(), Box::new(e)), None),
+                    5 => (Expr::Bin('*', Box::new(Expr::Bin('+', Box::new(e), two())), two()), None),
+                    _ => (Expr::Bin('*', two(), Box::new(e)), Some("x".to_string())),
+                };
+                Some(Case { expr: e, style: Style::Minimal, assign })
             },
         ));
         let na = tier.pick(3, 4);
